@@ -35,6 +35,9 @@ FIXED = [
     # groups of a single item: an edge alone implies its two segments, a nested group alone is the group
     ['S\tA\t10\t*', 'S\tB\t10\t*', _E % ('e1', 'A+', 'B+'), 'O\to1\te1+', 'O\to2\te1-', 'O\to3\tA-', 'O\to4\to1+', 'O\to5\to1-',
      'U\tu1\te1', 'U\tu2\tu1', 'U\tu3\to2'],
+    # a nested group that ends with an edge, followed in the outer group by the segment the edge leads to
+    ['S\tA\t10\t*', 'S\tB\t10\t*', 'S\tC\t10\t*', _E % ('e1', 'A+', 'B+'), _E % ('e2', 'B+', 'C+'), 'O\tinner\tA+ e1+', 'O\touter\tinner+ B+ C+',
+     'O\tinner2\te1+', 'O\touter2\tinner2+ e2+', 'O\touter3\tinner2- A-'],
     # groups that contain themselves, directly or through another group: reported as inconsistent (F77)
     ['S\tA\t10\t*', 'S\tB\t10\t*', _E % ('e1', 'A+', 'B+'), 'O\to1\to2+ A+', 'O\to2\to1+ A+', 'O\to3\tA+ B+', 'U\tu1\tu2 A', 'U\tu2\tu1',
      'U\tu3\tu3 B', 'U\tu4\to3 A'],
